@@ -40,8 +40,11 @@ package contract
 //@ may-panic
 //@ requires ic != nil && ic.VM != nil && ic.VM.gasConsumed != nil && cs != nil
 //@ opt frame off
-//@ opt stable ic.VM, ic.VM.gasConsumed
+//@ opt stable ic.VM, ic.VM.gasConsumed, ic.VM.flags
 //@ call LoadNEFMethod requires[shrink] arg5 & f == arg5
+// Whoever calls (a contract through System.Contract.Call or a native contract calling back): the
+// new context gets no flag the executing context lacks.
+//@ call LoadNEFMethod requires[within] arg5 & ic.VM.flags == arg5
 // (C04) A callee that can write storage or notify, entered while the calling contract has an
 // open TRY, runs in a private layer of its own: a fresh empty layer over the caller's DAO,
 // which the unload callback (below) merges or drops.
